@@ -134,7 +134,7 @@ impl Probe {
         feats.dedup();
         let feats: Vec<String> = feats.iter().map(|f| format!("\"{f}\"")).collect();
         let mut m = format!(
-            "[package]\nname = \"{}\"\nversion = \"0.1.0\"\nedition = \"2021\"\n\n[dependencies]\nleptos = {{ version = \"0.7.7\", default-features = false, features = [\"ssr\"] }}\nleptos_i18n = {{ path = \"/repo/leptos_i18n\", default-features = false, features = [{}] }}\nserde = \"1\"\nserde_json = \"1\"\nany_spawner = {{ version = \"0.2\", features = [] }}\ncodee = \"0.3\"\nfutures = {{ version = \"0.3\", features = [\"executor\"] }}\nicu_locid_transform = {{ version = \"1.5\", features = [\"compiled_data\"] }}\nicu_locid = \"1.5\"\n\n",
+            "[package]\nname = \"{}\"\nversion = \"0.1.0\"\nedition = \"2021\"\n\n[dependencies]\nleptos = {{ version = \"0.7.7\", default-features = false, features = [\"ssr\"] }}\nleptos_i18n = {{ path = \"/repo/leptos_i18n\", default-features = false, features = [{}] }}\nserde = \"1\"\nserde_json = \"1\"\nany_spawner = {{ version = \"0.2\", features = [] }}\ncodee = \"0.3\"\nfutures = {{ version = \"0.3\", features = [\"executor\"] }}\nicu_locid_transform = {{ version = \"1.5\", features = [\"compiled_data\"] }}\nicu_locid = \"1.5\"\ntinystr = \"0.7\"\nwriteable = \"0.5\"\n\n",
             self.name,
             feats.join(", ")
         );
